@@ -21,6 +21,8 @@ type predEval struct {
 	subject string // types.ExprString of the subject expression in the current frame
 	val     int64
 	depth   int
+	// free: assumed truth values of boolean option selectors (by types.ExprString), e.g. "self.opts.Int642String"
+	free map[string]bool
 }
 
 type evalErr struct{ msg string }
@@ -91,6 +93,10 @@ func (pe *predEval) evalBool(p *packages.Package, e ast.Expr, locals map[string]
 	case *ast.Ident:
 		if def, ok := locals[x.Name]; ok {
 			return pe.evalBool(p, def, locals)
+		}
+	case *ast.SelectorExpr:
+		if v, ok := pe.free[types.ExprString(x)]; ok {
+			return v, nil
 		}
 	case *ast.CallExpr:
 		f, ok := typeutil.Callee(p.TypesInfo, x).(*types.Func)
